@@ -81,3 +81,7 @@ claim("C18",
       "Effect-confinement analysis of updateHIDIConfiguration and its two walk callbacks on all their paths: complete inventory of file-system mutating calls (Mkdir x2, write-OpenFile x4, Write x4; none of the removing/renaming/overwriting APIs); the whole-tree generation runs only when the directory was found missing; when it exists only paths handed out by the walk of the embedded factory tree are written; the blacklist is created only on a not-exist edge, with O_CREATE and without O_TRUNC/O_APPEND; every Write writes exactly the embedded template read for the very path that was opened; an existing factory file is compared (disk content vs template of the same path) and either left alone when equal or replaced whole with O_TRUNC; a missing one is created; errors of mutating calls and template reads are returned. OS-level atomicity, permissions and symlinks are NOT decided.",
       COMMON_NOTE + " os/io/fs semantics (OpenFile flags, WalkDir callback contract) are trusted as documented.",
       "path-effect enumeration over go/ssa with constant folding of paths and open flags, matched against region/content templates; call inventory; error-edge reachability")
+
+claim("C20",
+      "Decides that handlers are grouped under a key that depends on the physical location only, that every discovered handler is appended exactly once to its group (unconditional append on every iteration over the whole input, no overwrite), that every member of a group becomes a handler of the device and takes part in the type decision, one device per group; that DetermineDeviceType and the capability predicates use their slice arguments only through len() and whole-slice iteration (no positional selection, so the type cannot depend on discovery order) and that the precedence is joystick, then standard keyboard, then not playable. ID/name/handler order of a device follow discovery order (noted, not constrained by the statement).",
+      COMMON_NOTE, "loop-structure (dominance of the append over the latch) and use-def rules over go/ssa + path-effect enumeration of the type decision")
